@@ -17,6 +17,17 @@ if [ "$1" = "--sed" ]; then
     sed -i -E "$expr" "$wt/$file"
     after=$(md5sum "$wt/$file")
     if [ "$before" = "$after" ]; then echo "MUTANT DID NOT CHANGE FILE"; git -C /repo worktree remove --force "$wt"; exit 3; fi
+elif [ "$1" = "--repl" ]; then
+    file="$2"; old="$3"; new="$4"; shift 4
+    python3 - "$wt/$file" "$old" "$new" <<'PYEOF' || { echo "MUTANT DID NOT CHANGE FILE"; git -C /repo worktree remove --force "$wt"; exit 3; }
+import sys
+p, old, new = sys.argv[1:4]
+old = old.encode().decode('unicode_escape'); new = new.encode().decode('unicode_escape')
+s = open(p).read()
+if old not in s:
+    sys.exit(1)
+open(p, 'w').write(s.replace(old, new, 1))
+PYEOF
 else
     patch="$1"; shift
     git -C "$wt" apply "$patch" || { echo "patch failed"; git -C /repo worktree remove --force "$wt"; exit 3; }
